@@ -266,6 +266,7 @@ class MSection(MEntity):
         self.props = []
         self.reference = None
         self.repository = None
+        self.link = None              # Section.link: another section (inherit properties from)
 
     def subtree(self):
         out = [self]
@@ -328,6 +329,8 @@ def delete_objects(mfile, objs):
     for sec in mfile.all_sections():
         alive(sec.sections)
         alive(sec.props)
+        if sec.link is not None and id(sec.link) in dead:
+            sec.link = None
     for blk in mfile.blocks:
         for attr in ("groups", "data_arrays", "data_frames", "tags", "multi_tags", "sources"):
             alive(getattr(blk, attr))
